@@ -249,6 +249,48 @@ example : handleResponse ⟨toyCodec, fun _ => false⟩ 0
           [.elem "ERROR".toList [("CODE".toList, ['x'])] []]]]])
     = .error .cimXmlParseError := rfl
 
+/-! ### no codec hypothesis
+
+`int(float)` and the overflow of `float(int)` are computed by the model (`truncF64`, `floatOverflows`,
+IEEE-754 binary64, compared with CPython on every float / integer of every K run); the remaining codec
+functions (`float(str)`, `CIMDateTime(str)`, `from_wbem_uri`, the parser of embedded object text, the
+bit pattern of a successful `float(int)`) are total functions into `Option`/`Bool`, so ANY behaviour of
+theirs is covered.  The theorems below therefore hold for every codec, without hypothesis. -/
+
+/-- every codec, made concrete in the two conversions that can raise more than one class -/
+def conc (C : EnvCodec) : EnvCodec := { C with toDecCodec := Resp.concreteCodec C.toDecCodec }
+
+/-- `CodecOk` is a theorem for the concrete conversions -/
+theorem C02_codec_hypothesis_discharged (C : EnvCodec) : CodecOk (conc C).toDecCodec :=
+  concreteCodec_ok C.toDecCodec
+
+/-- **C02, top level, no hypothesis (partial: RecursionError, C02-KF1)**: for EVERY codec, operation
+    signature, status line, header list and body (tree or SAX rejection): a documented error class or
+    RecursionError, and parse errors carry request and response data.
+    Full statement wanted: without the RecursionError disjunct (see the budget theorems). -/
+theorem C02_client_no_hypothesis_partial (C : EnvCodec) (fuel : Nat) (op : OpSpec) (h : HttpResp) (body : Option Xml) :
+    (∀ e, (client (conc C) fuel op h body).res = .error e → Documented e ∨ e = .recursionError) ∧
+    (∀ e, (client (conc C) fuel op h body).res = .error e → isParseError e = true →
+      (client (conc C) fuel op h body).hasRequestData = true ∧ (client (conc C) fuel op h body).hasResponseData = true) :=
+  C02_client_partial (conc C) (C02_codec_hypothesis_discharged C) fuel op h body
+
+/-- **envelope_no_leak, idealised interpreter, no hypothesis (full strength)**: for every codec, if some
+    nesting budget suffices, every larger budget gives the same outcome and every exception is a
+    documented class -/
+theorem C02_envelope_no_leak_no_hypothesis (C : EnvCodec) (n : Nat) (op : OpSpec) (t : Xml)
+    (hn : handleResponse (conc C) n op t ≠ .error .recursionError) (m : Nat) (hm : n ≤ m) :
+    handleResponse (conc C) m op t = handleResponse (conc C) n op t ∧
+    ∀ e, handleResponse (conc C) m op t = .error e → Documented e :=
+  C02_envelope_no_leak_when_budget_suffices (conc C) (C02_codec_hypothesis_discharged C) n op t hn m hm
+
+/-- non-vacuity: `<VALUE>INF</VALUE>` for a uint8 property is a CIMXMLParseError through the concrete
+    `int(inf)` = OverflowError inside `except (ValueError, OverflowError)` -/
+example : Resp.unpackSingle (Resp.concreteCodec { toyCodec with parseFloat := fun _ => some 0x7FF0000000000000 })
+    "INF".toList (some "uint8".toList) = .error .cimXmlParseError := rfl
+
+/-- and 3.7 truncates to 3 (the silent truncation of C06) -/
+example : Resp.truncF64 0x400D99999999999A = .ok 3 := rfl
+
 /-- **HTTP layer, exact**: the response body is looked at iff the status is 200 and the Content-type
     header is absent or starts with application/xml or text/xml -/
 theorem C02_http_accepts_iff (h : HttpResp) :
